@@ -52,7 +52,7 @@ def plan(tier, seed):
 
 
 def mandatory(tier):
-    return [f"mode/{m}" for m in MODES] + ["affine", "translation", "scaling", "spacing", "bspline", "lame", "inverse_consistency/cube", "inverse_consistency/voxel", "inverse_consistency/world", "modules", "modules/elastic_constants", "default_spacing", "linear_tensor"]
+    return [f"mode/{m}" for m in MODES] + ["affine", "translation", "scaling", "spacing", "bspline", "lame", "inverse_consistency/cube", "inverse_consistency/voxel", "inverse_consistency/world", "modules", "modules/elastic_constants", "default_spacing", "linear_tensor", "inverse_consistency/float_margin", "grad_loss/p/int/odd", "grad_loss/p/int/other", "grad_loss/p/float/other"]
 
 
 def interior(a, m):
@@ -120,7 +120,10 @@ def case(ctx, i):
     lam, mu = float(np.exp(rng.uniform(-1, 1))), float(np.exp(rng.uniform(-1, 1)))
     trJ = np.trace(A, axis1=1, axis2=2)
     sym = A + np.swapaxes(A, 1, 2)
-    p_, q_ = float(rng.choice([1, 2, 3, 1.5])), float(rng.choice([1, 0.5, 2]))
+    # exponents keep their Python type: integer and float spellings of the same value must agree with the formula
+    P_, Q_ = [1, 2, 3, 1.5, 4, 2.0, 5], [1, 0.5, 2, 1.0]
+    p_, q_ = P_[int(rng.integers(len(P_)))], Q_[int(rng.integers(len(Q_)))]
+    ctx.bucket(f"grad_loss/p/{type(p_).__name__}/{'odd' if p_ % 2 == 1 else 'other'}")
     analytic = {
         "diffusion_loss": 0.5 * (A**2).sum(axis=(1, 2)),
         "total_variation_loss": np.abs(A).sum(axis=(1, 2)),
@@ -290,6 +293,11 @@ def case(ctx, i):
                 mrg = 1
                 nm = LF.inverse_consistency_loss(fwd, ident, grid=g, units=units, margin=mrg, reduction="none")
                 ctx.true("margin_drops_border_samples", tuple(nm.shape[1:]) == tuple(int(k) - 2 * mrg for k in g.shape), key="inverse_consistency/margin", got=list(nm.shape), **gi)
+                fm = float(rng.choice([0.15, 0.25, 0.3]))  # fraction of the grid size per axis (documented for float margins)
+                nf = LF.inverse_consistency_loss(fwd, ident, grid=g, units=units, margin=fm, reduction="none")
+                ctx.bucket("inverse_consistency/float_margin")
+                ctx.true("float_margin_drops_fraction_of_each_axis", tuple(nf.shape[1:]) == tuple(int(k) - 2 * int(fm * int(k)) for k in g.shape), key="inverse_consistency/margin", got=list(nf.shape), grid_shape=list(g.shape), margin=fm, **gi)
+                ctx.close("constant_error_with_float_margin", nf, np.full(tuple(nf.shape), want), 1e-6 * (1 + want), key=f"inverse_consistency/{units}/unit/ac={ac}", want=float(want), margin=fm, **gi)
                 mask = torch.tensor((rng.uniform(size=(1, 1) + tuple(g.shape)) < 0.5).astype(np.float64))
                 mask.reshape(-1)[0] = 1
                 vm = LF.inverse_consistency_loss(fwd, ident, grid=g, units=units, mask=mask)
